@@ -1175,6 +1175,8 @@ func (vm *VM) xOpCallCompiled(cfunc *CompiledFunction, numArgs, flags int) error
 	vm.frameIndex++
 
 	if vm.frameIndex > frameSize-1 {
+		// the frame is not entered, the current frame may catch the error
+		vm.frameIndex--
 		return ErrStackOverflow
 	}
 
